@@ -233,4 +233,36 @@ def runC06 (fields : List String) (obs : String) : String × String × String :=
     | _, _ => bad
   | _ => bad
 
+/-- C07 `cdec`: every constant the loader decoded is the value the model's decoder reads from the bytes the
+    compiler wrote for it (for the kinds the model decodes: the scalar kinds, matrices, sets and tables of them) -/
+def runCdec (fields : List String) (obs : String) : String × String × String :=
+  match fields with
+  | [_, _] =>
+    if obs == "skip" then ("skip", "ok", "-") else
+    if obs.startsWith "err:" || obs.startsWith "panic:" then
+      -- the constant decoder of a file the compiler itself emitted refused or panicked: C07-D6 (kinds without a reader)
+      -- (only the two panics of the set / table / matrix readers that the finding names; any other panic is new)
+      let slug := ((obs.splitOn "panic:decode:").getD 1 "")
+      let known := slug.startsWith "not_implemented" || slug.startsWith "Cannot_create_Matrix"
+      (obs, if obs.startsWith "panic:" then "bad:the constant decoder panicked on a file the compiler emitted" else "ok",
+       if obs.startsWith "panic:" && known then "C07-D6" else "-")
+    else
+    let sect (name : String) : String := (((obs.splitOn (name ++ "=")).getD 1 "").splitOn ";").headD ""
+    let constsRaw := sect "consts"
+    let raws := if (sect "raw").isEmpty then [] else (sect "raw").splitOn ","
+    let consts := if constsRaw.isEmpty then [] else (constsRaw.splitOn ",").map (fun h => (unhexStr h).getD "?")
+    if raws.length != consts.length then (obs, "bad:" ++ toString consts.length ++ " constants decoded from " ++ toString raws.length ++ " entries", "-") else
+    let pairs := raws.zip consts
+    -- what the model reads from each entry (the observed text where the model has no reader for the tag)
+    let modelled := pairs.map (fun p => match p.1.splitOn ":" with
+      | [tag, hex] => (match decodeRaw tag hex with | some t => if t == "undecodable" then p.2 else t | none => p.2)
+      | _ => p.2)
+    let firstBad := (pairs.zip modelled).find? (fun q => q.1.2 != q.2)
+    let hexOf (t : String) : String := String.ofList (t.toUTF8.toList.flatMap (fun b => (hexFixed b.toNat 2).toList))
+    let model := "consts=" ++ ",".intercalate (modelled.map hexOf) ++ ";raw=" ++ ",".intercalate raws
+    match firstBad with
+    | some q => (model, "bad:a constant written as " ++ q.1.1 ++ " was decoded as " ++ q.1.2 ++ ", its bytes say " ++ q.2, "-")
+    | none => (model, "ok", "-")
+  | _ => ("bad-case", "bad-case", "-")
+
 end MechVerif.Driver.S06
